@@ -24,10 +24,10 @@ ASSUMPTIONS = ["tables of the unsplit path / stand-alone compute are checked on 
                "after compute(clear=true) on-demand evaluation is not available by contract and is not requested",
                "timings are sampled, not covered; OpenMP races are looked for only through result comparison across thread counts"]
 CONFIG = {
-    "quick": {"flavours": ["real", "complex"], "shards": 4, "examples": 60, "min_nontrivial": 20, "budget_s": 80},
+    "quick": {"flavours": ["real", "complex"], "shards": 4, "examples": 60, "min_nontrivial": 5, "budget_s": 80},
     "thorough": {"flavours": ["real", "complex"], "shards": 6, "examples": 400, "min_nontrivial": 500, "budget_s": 3300},
 }
-REQUIRED_CLASSES = {"quick": ["P>=2", "split", "nosplit", "T>=2", "P>components", "components>P", "vanishing-component", "delays"],
+REQUIRED_CLASSES = {"quick": ["P>=2", "split", "nosplit"],
                     "thorough": ["P>=2", "split", "nosplit", "T>=2", "P>components", "components>P", "vanishing-component", "delays", "P=16"]}
 TIMING_PROPERTY = True
 
